@@ -5,6 +5,7 @@ import (
 	"go/constant"
 	"go/token"
 	"go/types"
+	"math/bits"
 	"sort"
 	"strings"
 
@@ -74,34 +75,133 @@ func (f Fact) String() string {
 	return ValStr(f.X) + " " + f.Op.String() + " " + ValStr(f.Y)
 }
 
-// Conj is a conjunction of facts (one disjunct of a DNF state).
-type Conj map[Fact]struct{}
+// Conj is a conjunction of facts (one disjunct of a DNF state), stored as a bitset over interned fact ids.
+type Conj struct {
+	fa   *Facts
+	bits []uint64
+}
 
-func (c Conj) Has(f Fact) bool { _, ok := c[f]; return ok }
+func (fa *Facts) NewConj() Conj { return Conj{fa: fa} }
 
-func (c Conj) clone() Conj {
-	n := make(Conj, len(c)+2)
-	for f := range c {
-		n[f] = struct{}{}
+func (fa *Facts) idOf(f Fact) int {
+	if id, ok := fa.ids[f]; ok {
+		return id
+	}
+	id := len(fa.byID)
+	fa.ids[f] = id
+	fa.byID = append(fa.byID, f)
+	return id
+}
+
+func (c Conj) hasID(id int) bool {
+	w := id >> 6
+	return w < len(c.bits) && c.bits[w]&(1<<(uint(id)&63)) != 0
+}
+
+func (c Conj) Has(f Fact) bool {
+	id, ok := c.fa.ids[f]
+	return ok && c.hasID(id)
+}
+
+// With returns a copy of c with f added.
+func (c Conj) With(f Fact) Conj {
+	n := c.clone()
+	n.add(f)
+	return n
+}
+
+func (c *Conj) add(f Fact) {
+	id := c.fa.idOf(f)
+	w := id >> 6
+	for len(c.bits) <= w {
+		c.bits = append(c.bits, 0)
+	}
+	c.bits[w] |= 1 << (uint(id) & 63)
+}
+
+func (c *Conj) delID(id int) {
+	w := id >> 6
+	if w < len(c.bits) {
+		c.bits[w] &^= 1 << (uint(id) & 63)
+	}
+}
+
+func (c Conj) Len() int {
+	n := 0
+	for _, w := range c.bits {
+		n += bits.OnesCount64(w)
 	}
 	return n
 }
 
-func (c Conj) subsetOf(d Conj) bool {
-	if len(c) > len(d) {
-		return false
+// List returns the facts of the conjunction.
+func (c Conj) List() []Fact {
+	var out []Fact
+	for wi, w := range c.bits {
+		for w != 0 {
+			b := bits.TrailingZeros64(w)
+			out = append(out, c.fa.byID[wi*64+b])
+			w &^= 1 << uint(b)
+		}
 	}
-	for f := range c {
-		if !d.Has(f) {
+	return out
+}
+
+func (c Conj) ids() []int {
+	var out []int
+	for wi, w := range c.bits {
+		for w != 0 {
+			b := bits.TrailingZeros64(w)
+			out = append(out, wi*64+b)
+			w &^= 1 << uint(b)
+		}
+	}
+	return out
+}
+
+func (c Conj) clone() Conj {
+	n := Conj{fa: c.fa, bits: make([]uint64, len(c.bits), len(c.bits)+1)}
+	copy(n.bits, c.bits)
+	return n
+}
+
+func (c Conj) subsetOf(d Conj) bool {
+	for i, w := range c.bits {
+		if w == 0 {
+			continue
+		}
+		if i >= len(d.bits) || w&^d.bits[i] != 0 {
 			return false
 		}
 	}
 	return true
 }
 
+func (c Conj) equal(d Conj) bool { return c.subsetOf(d) && d.subsetOf(c) }
+
+func (c Conj) commonCount(d Conj) int {
+	n := 0
+	for i, w := range c.bits {
+		if i < len(d.bits) {
+			n += bits.OnesCount64(w & d.bits[i])
+		}
+	}
+	return n
+}
+
+func (c Conj) intersect(d Conj) Conj {
+	n := Conj{fa: c.fa}
+	for i, w := range c.bits {
+		if i < len(d.bits) {
+			n.bits = append(n.bits, w&d.bits[i])
+		}
+	}
+	return n
+}
+
 func (c Conj) Strings() []string {
 	var s []string
-	for f := range c {
+	for _, f := range c.List() {
 		s = append(s, f.String())
 	}
 	sort.Strings(s)
@@ -142,6 +242,8 @@ type constKey struct {
 
 // Facts holds per-program interning tables and per-function memoised dataflow results.
 type Facts struct {
+	ids    map[Fact]int
+	byID   []Fact
 	consts map[constKey]*ssa.Const
 	states map[*ssa.Function]map[*ssa.BasicBlock]DNF
 	Cap    int
@@ -151,7 +253,7 @@ type Facts struct {
 }
 
 func NewFacts() *Facts {
-	return &Facts{consts: map[constKey]*ssa.Const{}, states: map[*ssa.Function]map[*ssa.BasicBlock]DNF{}, Cap: 32}
+	return &Facts{ids: map[Fact]int{}, consts: map[constKey]*ssa.Const{}, states: map[*ssa.Function]map[*ssa.BasicBlock]DNF{}, Cap: 64}
 }
 
 // Canon interns constants and strips value-preserving wrappers.
@@ -251,7 +353,7 @@ func contradicts(c Conj, f Fact) bool {
 	}
 	if f.Op == token.EQL {
 		if fc, ok := f.Y.(*ssa.Const); ok {
-			for g := range c {
+			for _, g := range c.List() {
 				if g.Op == token.EQL && g.X == f.X && g.Y != f.Y {
 					if gc, ok := g.Y.(*ssa.Const); ok && !constEqual(fc, gc) {
 						return true
@@ -291,7 +393,7 @@ func (fa *Facts) States(fn *ssa.Function) map[*ssa.BasicBlock]DNF {
 // At returns the state holding at an instruction (facts change only on edges).
 func (fa *Facts) At(in ssa.Instruction) DNF {
 	if in.Block() == nil {
-		return DNF{Conj{}}
+		return DNF{fa.NewConj()}
 	}
 	return fa.States(in.Parent())[in.Block()]
 }
@@ -329,10 +431,11 @@ func (fa *Facts) transfer(in DNF, pred, succ *ssa.BasicBlock, predIdx int) DNF {
 		}
 		n := c.clone()
 		for _, f := range ef {
-			n[f] = struct{}{}
+			n.add(f)
 		}
 		// phi facts (computed from the pre-kill conjunction)
 		var add []Fact
+		nList := n.List()
 		for _, ins := range succ.Instrs {
 			phi, ok := ins.(*ssa.Phi)
 			if !ok {
@@ -351,7 +454,7 @@ func (fa *Facts) transfer(in DNF, pred, succ *ssa.BasicBlock, predIdx int) DNF {
 				// provenance of string-valued phis (user names etc.): on this path the phi IS the operand
 				add = append(add, Fact{Op: token.EQL, X: phi, Y: op})
 			}
-			for g := range n {
+			for _, g := range nList {
 				if g.X == op {
 					if g.Op == token.ILLEGAL {
 						add = append(add, Fact{X: phi, Pol: g.Pol})
@@ -362,16 +465,17 @@ func (fa *Facts) transfer(in DNF, pred, succ *ssa.BasicBlock, predIdx int) DNF {
 			}
 		}
 		// kill facts about values (re)defined in succ
-		for g := range n {
+		for _, id := range n.ids() {
+			g := fa.byID[id]
 			if definedIn(g.X, succ) || (g.Y != nil && definedIn(g.Y, succ)) {
-				delete(n, g)
+				n.delID(id)
 			}
 		}
 		for _, f := range add {
 			if f.Y != nil && definedIn(f.Y, succ) {
 				continue
 			}
-			n[f] = struct{}{}
+			n.add(f)
 		}
 		out = append(out, n)
 	}
@@ -383,9 +487,16 @@ func prune(d DNF, cap int) DNF {
 		return nil
 	}
 	// remove disjuncts that are supersets of another (A ∨ (A∧B) = A)
-	sort.SliceStable(d, func(i, j int) bool { return len(d[i]) < len(d[j]) })
-	var out DNF
-	for _, c := range d {
+	lens := make([]int, len(d))
+	idx := make([]int, len(d))
+	for i := range d {
+		lens[i] = d[i].Len()
+		idx[i] = i
+	}
+	sort.SliceStable(idx, func(i, j int) bool { return lens[idx[i]] < lens[idx[j]] })
+	out := DNF{}
+	for _, i := range idx {
+		c := d[i]
 		red := false
 		for _, k := range out {
 			if k.subsetOf(c) {
@@ -399,38 +510,27 @@ func prune(d DNF, cap int) DNF {
 	}
 	for len(out) > cap {
 		if cap <= 1 {
-			m := out[0].clone()
+			m := out[0]
 			for _, c := range out[1:] {
-				for f := range m {
-					if !c.Has(f) {
-						delete(m, f)
-					}
-				}
+				m = m.intersect(c)
 			}
 			return DNF{m}
 		}
 		// widen: merge the two disjuncts that lose the fewest facts when replaced by their intersection
+		ls := make([]int, len(out))
+		for i := range out {
+			ls[i] = out[i].Len()
+		}
 		bi, bj, best := -1, -1, 1<<30
 		for i := 0; i < len(out); i++ {
 			for j := i + 1; j < len(out); j++ {
-				common := 0
-				for f := range out[i] {
-					if out[j].Has(f) {
-						common++
-					}
-				}
-				loss := len(out[i]) + len(out[j]) - 2*common
+				loss := ls[i] + ls[j] - 2*out[i].commonCount(out[j])
 				if loss < best {
 					bi, bj, best = i, j, loss
 				}
 			}
 		}
-		m := Conj{}
-		for f := range out[bi] {
-			if out[bj].Has(f) {
-				m[f] = struct{}{}
-			}
-		}
+		m := out[bi].intersect(out[bj])
 		var next DNF
 		for k, c := range out {
 			if k == bi || k == bj {
@@ -453,7 +553,7 @@ func dnfEqual(a, b DNF) bool {
 	for _, c := range a {
 		found := false
 		for _, k := range b {
-			if len(c) == len(k) && c.subsetOf(k) {
+			if c.equal(k) {
 				found = true
 				break
 			}
@@ -470,7 +570,7 @@ func (fa *Facts) compute(fn *ssa.Function, cap int) map[*ssa.BasicBlock]DNF {
 	if len(fn.Blocks) == 0 {
 		return st
 	}
-	st[fn.Blocks[0]] = DNF{Conj{}}
+	st[fn.Blocks[0]] = DNF{fa.NewConj()}
 	// reverse post-order
 	order := rpo(fn)
 	for iter := 0; iter < 40; iter++ {
@@ -512,7 +612,7 @@ func (fa *Facts) compute(fn *ssa.Function, cap int) map[*ssa.BasicBlock]DNF {
 	if cap == 1 {
 		// give up: nothing known anywhere (sound)
 		for _, b := range fn.Blocks {
-			st[b] = DNF{Conj{}}
+			st[b] = DNF{fa.NewConj()}
 		}
 		return st
 	}
